@@ -41,6 +41,9 @@ PROJECT = {
     "H.ucg": 'let ports = [8080, 8443];\nlet names = ["http"];\nlet listen = ports + names;\nout json {h = listen};\n',
     # reaches H through an inline import, which the checker does not follow: H is checked when it is loaded at run time
     "I.ucg": 'let first = (import "./H.ucg").ports.0;\nout json {i = first};\n',
+    # hands the whole import of the library to a function whose parameter wants another shape: a type error of this file,
+    # whichever file imported the library first
+    "P.ucg": 'let render = func (cfg :: {x = ""}) => cfg.x;\nlet l = import "./L.ucg";\nlet u = render(l);\nout json {u = u};\n',
 }
 FILES = list(PROJECT)
 
@@ -156,7 +159,7 @@ def work_e3(chunk):
 def role(n):
     return {"A.ucg": "plain", "L.ucg": "library", "B.ucg": "importer", "M.ucg": "built-and-imported", "N.ucg": "imports-built-file",
             "X.ucg": "type-error", "Y.ucg": "runtime-failure", "T.ucg": "two-spellings", "Z.ucg": "fails-after-importing-built-file",
-            "W.ucg": "fails-after-out", "H.ucg": "refused-by-checker-only", "I.ucg": "imports-inline-a-file-the-checker-refuses"}[n]
+            "W.ucg": "fails-after-out", "H.ucg": "refused-by-checker-only", "I.ucg": "imports-inline-a-file-the-checker-refuses", "P.ucg": "passes-the-library-to-a-typed-parameter"}[n]
 
 
 # -- E2 --------------------------------------------------------------------------------------
